@@ -185,20 +185,28 @@ fn budgets(prog: &Prog, k: usize, seed: u64, acc: &mut Acc, label: &str) {
 
 /// reset_step_count: the bound applies to the steps since the last reset.
 fn reset_bodies(acc: &mut Acc) {
-    for (k1, k2) in [(3usize, 5usize), (6, 2), (4, 4), (1, 9)] {
+    // (yields, draws) before the reset and after it
+    for (k1, d1, k2, d2) in [(3usize, 0usize, 5usize, 0usize), (6, 0, 2, 0), (4, 0, 4, 0), (1, 0, 9, 0), (2, 6, 5, 0), (1, 9, 3, 2), (3, 4, 2, 5), (0, 7, 6, 0)] {
         let mk = move || {
             move || {
+                use shuttle::rand::Rng as _;
                 for _ in 0..k1 {
                     shuttle::thread::yield_now();
+                }
+                for _ in 0..d1 {
+                    let _: u64 = shuttle::rand::thread_rng().gen();
                 }
                 rec::body_event(77, shuttle::current::context_switches() as i64, 0);
                 shuttle::current::reset_step_count();
                 for _ in 0..k2 {
                     shuttle::thread::yield_now();
                 }
+                for _ in 0..d2 {
+                    let _: u64 = shuttle::rand::thread_rng().gen();
+                }
             }
         };
-        // measure the step index of the reset
+        // measure the step index of the reset (steps = decisions + draws)
         let mut cfg = rec::base_config();
         cfg.max_steps = shuttle::MaxSteps::None;
         let logs: Rc<RefCell<Vec<rec::ExecLog>>> = Rc::new(RefCell::new(vec![]));
@@ -211,6 +219,13 @@ fn reset_bodies(acc: &mut Acc) {
         for e in &log.events {
             match e {
                 Ev::Body { tag: 77, .. } => seen = true,
+                Ev::Draw(_) => {
+                    if seen {
+                        after += 1
+                    } else {
+                        before += 1
+                    }
+                }
                 Ev::Decision(d) if d.choice.is_some() => {
                     if seen {
                         after += 1
@@ -223,7 +238,8 @@ fn reset_bodies(acc: &mut Acc) {
         }
         let lmax = before.max(after);
         acc.add("reset_bodies", 1);
-        for n in [lmax.saturating_sub(1).max(1), lmax + 1, before + after - 1, before + after + 1] {
+        acc.distinct.insert(crate::util::hash64(format!("reset{k1}-{d1}-{k2}-{d2}").as_bytes()));
+        for n in [lmax.saturating_sub(1).max(1), lmax + 1, lmax + 2, before + after - 1, before + after + 1] {
             let mut c = cfg.clone();
             c.max_steps = shuttle::MaxSteps::FailAfter(n);
             let rr = rec::run_streamed(RoundRobinScheduler::new(1), c, mk(), |_f| {});
@@ -231,15 +247,31 @@ fn reset_bodies(acc: &mut Acc) {
             if n > lmax && rr.term != Term::Pass {
                 acc.violation(
                     "reset-step-count-ignored",
-                    format!("segments of {before} and {after} steps separated by reset_step_count(): FailAfter({n}) failed ({:?}) although no segment exceeds the bound", rr.term),
-                    json!({"k1": k1, "k2": k2, "n": n}),
+                    format!("segments of {before} and {after} steps (decisions + draws) separated by reset_step_count(): FailAfter({n}) failed ({:?}) although no segment exceeds the bound", rr.term),
+                    json!({"yields_before": k1, "draws_before": d1, "yields_after": k2, "draws_after": d2, "n": n}),
                 );
             }
             if n < lmax && rr.term != Term::StepBound {
                 acc.violation(
                     "reset-step-count-overshoot",
                     format!("segments of {before} and {after} steps: FailAfter({n}) ended {:?} although a segment needs {lmax} steps", rr.term),
-                    json!({"k1": k1, "k2": k2, "n": n}),
+                    json!({"yields_before": k1, "draws_before": d1, "yields_after": k2, "draws_after": d2, "n": n}),
+                );
+            }
+            // ContinueAfter: an execution whose segments all stay below the bound must complete
+            let mut c = cfg.clone();
+            c.max_steps = shuttle::MaxSteps::ContinueAfter(n);
+            let done: Rc<RefCell<Vec<usize>>> = Rc::new(RefCell::new(vec![]));
+            let d3 = done.clone();
+            let rr = rec::run_streamed(RoundRobinScheduler::new(1), c, mk(), move |f| d3.borrow_mut().push(steps(&f.log)));
+            acc.evaluations += 1;
+            if rr.term != Term::Pass {
+                acc.violation("continueafter-raised", format!("ContinueAfter({n}) on a reset body failed: {:?}", rr.term), json!({"n": n}));
+            } else if n > lmax && done.borrow().first().copied() != Some(before + after) {
+                acc.violation(
+                    "reset-step-count-ignored",
+                    format!("segments of {before} and {after} steps separated by reset_step_count(): under ContinueAfter({n}) the execution was cut after {:?} steps although no segment exceeds the bound", done.borrow().first()),
+                    json!({"yields_before": k1, "draws_before": d1, "yields_after": k2, "draws_after": d2, "n": n}),
                 );
             }
         }
